@@ -446,6 +446,9 @@ func (w *World) fireStepFaults() {
 
 func (w *World) inject(f *Fault) {
 	f.fired = true
+	if f.Site != "" {
+		w.faultsInc("site-triggered")
+	}
 	switch f.Kind {
 	case "crash":
 		s := w.servers[f.Srv]
